@@ -25,6 +25,8 @@ def case_strategy():
 
     @st.composite
     def _case(draw):
+        if draw(st.integers(0, 7)) == 0:
+            return draw(G.literal_table_case())  # the lookup-table path of the dependent dispatcher
         h = draw(H.hierarchies(1, 6))
         knames = H.class_names(h)
         env = H.build(h)
